@@ -223,7 +223,7 @@ def sig_python(pyfile: str) -> Dict[str, Any]:
 
 _STRUCT_RE = re.compile(r"typedef\s+struct\s*\{(?P<body>[^}]*)\}\s*(?P<name>\w+)\s*;", re.S)
 _FIELD_RE = re.compile(r"^\s*(?P<type>[\w ]+?)\s+(?P<name>\w+)\s*(\[(?P<len>[^\]]*)\])?\s*;\s*$")
-_DEFINE_RE = re.compile(r"^#define\s+(?P<name>\w+)\s+(?P<val>.+?)\s*$", re.M)
+_DEFINE_RE = re.compile(r"^#define[ \t]+(?P<name>\w+)[ \t]+(?P<val>[^\n]+?)[ \t]*$", re.M)
 
 
 def header_structs(text: str) -> List[Tuple[str, List[Tuple[str, str, Optional[str]]]]]:
